@@ -196,10 +196,20 @@ def run_check(mod, tier, seed, jobs=None):
         # many small chunks: balances unequal case costs, keeps per-message size small
         nchunks = min(total, nproc * 8)
         chunks = [descs[i::nchunks] for i in range(nchunks)]
-        with mpctx.Pool(nproc) as pool:
-            for out in pool.imap_unordered(_worker, [(modname, pid, tier, seed, c) for c in chunks]):
-                errors += out.pop('errors')
-                ctx.merge(out)
+        # one scratch directory for all workers of this run (generated host programs), removed with the run: pool workers are
+        # terminated, their own exit handlers never run
+        import shutil
+        import tempfile
+        base = tempfile.mkdtemp(prefix='deepverif-run-')
+        os.environ['VERIF_SCRATCH'] = base
+        try:
+            with mpctx.Pool(nproc) as pool:
+                for out in pool.imap_unordered(_worker, [(modname, pid, tier, seed, c) for c in chunks]):
+                    errors += out.pop('errors')
+                    ctx.merge(out)
+        finally:
+            os.environ.pop('VERIF_SCRATCH', None)
+            shutil.rmtree(base, ignore_errors=True)
     if hasattr(mod, 'finish'):
         use_repo()
         mod.finish(ctx, tier)
